@@ -996,6 +996,45 @@ func c19Partition(r *Run, ic *iterCopy) []string {
 				}
 			}
 		}
+	} else if gc, ok := g.(*ssa.Call); ok && gc.Call.StaticCallee() != nil && inModule(gc.Call.StaticCallee()) {
+		// a helper with two returns: Len/size, and Len/size + 1 under Len%size != 0
+		h := gc.Call.StaticCallee()
+		isQuo := func(v ssa.Value) bool {
+			bo, ok := v.(*ssa.BinOp)
+			return ok && bo.Op == token.QUO && isLen(bo.X) && nv(bo.Y) == size
+		}
+		var rets []*ssa.Return
+		for _, b := range h.Blocks {
+			if ret, ok := b.Instrs[len(b.Instrs)-1].(*ssa.Return); ok && len(ret.Results) == 1 {
+				rets = append(rets, ret)
+			}
+		}
+		if len(rets) == 2 {
+			var plain, plus *ssa.Return
+			for _, ret := range rets {
+				v := ret.Results[0]
+				if isQuo(v) {
+					plain = ret
+				} else if bo, ok := v.(*ssa.BinOp); ok && bo.Op == token.ADD && isQuo(bo.X) {
+					if c, ok := bo.Y.(*ssa.Const); ok && c.Value != nil && constant.Compare(c.Value, token.EQL, constant.MakeInt64(1)) {
+						plus = ret
+					}
+				}
+			}
+			div = plain != nil
+			if plain != nil && plus != nil && len(plus.Block().Preds) == 1 {
+				test := plus.Block().Preds[0]
+				if ifi, ok := test.Instrs[len(test.Instrs)-1].(*ssa.If); ok && test.Succs[0] == plus.Block() {
+					if bo, ok := ifi.Cond.(*ssa.BinOp); ok && (bo.Op == token.NEQ || bo.Op == token.GTR) {
+						if rem, ok := bo.X.(*ssa.BinOp); ok && rem.Op == token.REM && isLen(rem.X) && nv(rem.Y) == size {
+							if c, ok := bo.Y.(*ssa.Const); ok && c.Value != nil && constant.Sign(c.Value) == 0 {
+								ceil = true
+							}
+						}
+					}
+				}
+			}
+		}
 	} else if bo, ok := g.(*ssa.BinOp); ok && bo.Op == token.QUO && nv(bo.Y) == size {
 		// (Len + size - 1) / size
 		if a, ok := bo.X.(*ssa.BinOp); ok && a.Op == token.SUB {
